@@ -159,8 +159,8 @@ RECURSIVE Body(_, _, _, _, _, _), Composite(_, _, _)
 Body(toks, i0, st, fields, names, self) ==
   LET i == IF IsKw(toks, i0, {"struct", "union"}) /\ IsId(toks, i0 + 1) /\ ~IsP(toks, i0 + 2, "{") THEN i0 + 1 ELSE i0 IN   \* "struct T *p;"
   IF IsP(toks, i, "}") THEN [ok |-> TRUE, fields |-> fields, i |-> i + 1]
-  ELSE IF IsKw(toks, i, {"struct", "union"}) /\ IsP(toks, i + 1, "{")
-  THEN \* a structure declared in place: anonymous member, or a named member of an anonymous type
+  ELSE IF IsKw(toks, i, {"struct", "union"}) /\ (IsP(toks, i + 1, "{") \/ (IsId(toks, i + 1) /\ IsP(toks, i + 2, "{")))
+  THEN \* a structure declared in place: anonymous member, or a named member of an anonymous (or tagged) type
        LET c == Composite(toks, i, st) IN
        IF ~c.ok THEN [ok |-> FALSE, fields |-> fields, i |-> i]
        ELSE IF IsP(toks, c.i, ";")
